@@ -68,7 +68,7 @@ def processConstant : List PkgVar :=
 variables, cached variables the reset does not clear, any other package-level variable on
 the request path that is not keyed by the request, and unknown shapes -/
 def Facts.violations (f : Facts) : List String :=
-  (f.cells.filter (fun c => !c.vars.isEmpty)).flatMap (fun c => c.vars.map (fun v => "shared:" ++ v)) ++
+  (f.cells.filter (fun c => !c.vars.isEmpty)).map (fun c => "shared:" ++ c.name) ++
   (f.cells.filter (fun c => !c.reset)).map (fun c => "not-reset:" ++ c.name) ++
   (Kind.all.filter (fun k => (f.cells.find? (fun c => c.kind = k)).isNone)).map (fun k => "no-fact:" ++ reprStr k) ++
   ((f.pkgVars.filter (fun v => !(requestKeyed.contains v) && !(processConstant.contains v) &&
